@@ -1286,22 +1286,19 @@ type outPayment struct {
 	Total    string    `json:"total"`
 }
 
-// conversions lists the results the documentation allows for converting x with
-// rate r into a currency of pexp decimals: amount times rate ("how much is 1 of
-// the from currency worth in the to currency"), at the destination precision.
-// When the amount carries more decimals than the destination the documented
-// composition (Multiply, then Rescale) rounds twice; both that and the single
-// rounding are accepted. twice reports whether they differ.
+// conversions gives the result of converting x with rate r into a currency of
+// pexp decimals: amount times rate ("how much is 1 of the from currency worth
+// in the to currency"), rounded once, half away from zero, to the destination
+// precision. twice reports whether rounding first to the amount's own (finer)
+// decimals and then again would have given something else - the class in
+// which an intermediate rounding shows.
 func conversions(x, r dec, pexp int) (vals []dec, twice bool) {
 	prod := new(big.Rat).Mul(x.Rat(), r.Rat())
 	single := dec{Units: ratref.RoundRat(prod, pexp), Exp: pexp}
 	vals = append(vals, single)
 	if x.Exp > pexp {
 		step := dec{Units: ratref.RoundRat(prod, x.Exp), Exp: x.Exp}.Rescale(pexp)
-		if !eqDec(step, single) {
-			vals = append(vals, step)
-			twice = true
-		}
+		twice = !eqDec(step, single)
 	}
 	return vals, twice
 }
@@ -1759,7 +1756,7 @@ func init() {
 			"payments: bill.Payment JSON documents (ES / EL regime, payment currency EUR / USD / JPY / KWD / MXN) with 1-8 lines, debit and/or credit written with the currency's decimals, fewer, or (rarely) more, line currencies different from the payment currency with declared exchange rates (plus reverse and unrelated rates in drawn order), documents with full, minimal or no tax summaries; calculated through schema.Object.Calculate and read back from the output JSON. Oracle: line total = debit x rate - credit x rate at the payment currency's decimals, total = sum of lines, tax = component-wise merge of the lines' document summaries as they appear in the output. "+
 			"Non-trivial: two operands (line summaries) share at least one rate group and differ in whether a shared category carries a surcharge, or a retained category is present, or a line amount is converted between currencies.",
 		"currency decimals are read from the published data/currency/iso.json",
-		"a currency conversion is amount x rate (rate = value of 1 unit of the line currency in the payment currency) rounded half away from zero to the payment currency's decimals; when the amount has more decimals than the payment currency the documented two-step result (Multiply at the amount's precision, then Rescale) is accepted as well and counted as converted:double-rounding-differs when it differs",
+		"a currency conversion is amount x rate (rate = value of 1 unit of the line currency in the payment currency) rounded once, half away from zero, to the payment currency's decimals; cases in which rounding first to the amount's own finer decimals would give another result are counted as converted:double-rounding-differs",
 		"a line or payment total may be presented exactly or rounded half away from zero to the payment currency's decimals",
 		"operands of different currency precision are not generated (the receiver's precision would win); products beyond 2^52 units are discarded (C05 domain)",
 		"row order and the key label of a merged group are free (any operand's label is accepted); percent pointers and extension maps shared between a result and its operands are not written through",
